@@ -259,6 +259,8 @@ class Failing(object):
             if self.exc in ('NotImplementedException', 'ParameterException', 'ModbusIOException'):
                 import pymodbus.exceptions as pe          # what an unfinished or custom datastore raises
                 raise getattr(pe, self.exc)('datastore failure injected in ' + name)
+            if self.exc.endswith('()'):
+                raise dict(RuntimeError=RuntimeError, TimeoutError=TimeoutError, NotImplementedError=NotImplementedError)[self.exc[:-2]]()   # no message
             raise dict(RuntimeError=RuntimeError, KeyError=KeyError, IOError=IOError)[self.exc]('datastore failure injected in ' + name)
 
     def validate(self, fx, address, count=1):
@@ -275,7 +277,8 @@ class Failing(object):
             self.blk[address + i] = v
 
 
-EXCS = ('RuntimeError', 'NotImplementedException', 'ParameterException', 'ModbusIOException', 'KeyError', 'IOError')
+EXCS = ('RuntimeError', 'NotImplementedException', 'ParameterException', 'ModbusIOException', 'KeyError', 'IOError',
+        'RuntimeError()', 'TimeoutError()', 'NotImplementedError()')
 
 
 def frontend_execute(front, ctx, request, ignore=False):
